@@ -1,6 +1,7 @@
 import HeartwoodModel.Model.Frame
 import HeartwoodModel.Model.Wire
 import HeartwoodModel.Model.ServiceInput
+import HeartwoodModel.Model.Streams
 import HeartwoodModel.Driver.C12
 import HeartwoodModel.Driver.Util
 /-! Driver entry for C13. First token selects the sub-model:
@@ -19,10 +20,24 @@ import HeartwoodModel.Driver.Util
   Output: one char per op — `o` handled without error, `m` peer disconnected for misbehaviour, `t` peer
   disconnected for an invalid timestamp, `P` panic (run stops), `-` for `x`/`c` ops; for a ping the char is
   followed by `+` if a pong is sent.
+  `R` restarts the node (new service over the same database); `<seeded>` may carry `/<known peers>`: the
+  peers that have a row in the address book. After a panicking connection event the char is `P`.
 * `c <stream hex> <chunk> <graph>` — git request header, same as C12's `h` cases.
+* `d <o|i> <op>…` — stream table of the wire protocol for one connected peer (`Model/Streams`): `O<id>`/`C<id>`/
+  `E<id>` control frames from the peer, `G<id>` git frame, `F` our fetch, `W<id>` worker result.
+  Output per op: `<op>:<events>`, events `Tr<id>`/`Ti<id>` worker task (responder/initiator), `So<id>`/`Sc<id>`
+  control frame sent, `-` nothing, `P` panic (run stops).
+
+`serviceCode` / `streamsCode` select the version of the code the driver mirrors: `/repo` main as it is.
+When the repairs of `fixes-pending/C13-*.patch` are committed to `/repo`, switch them to `.fixed`.
 -/
 namespace HeartwoodModel.Driver.C13
 open HeartwoodModel.Driver.Util
+
+/-- Version of `service.rs` mirrored by the driver. -/
+def serviceCode : HeartwoodModel.ServiceInput.Code := HeartwoodModel.ServiceInput.Code.current
+/-- Version of `wire/protocol.rs` mirrored by the driver. -/
+def streamsCode : HeartwoodModel.Streams.Code := HeartwoodModel.Streams.Code.current
 
 /-! ### (a) -/
 section A
@@ -86,14 +101,27 @@ def parseSessions (s : String) : Option (List (Nat × SessState)) :=
 
 def persistent (p : Nat) : Bool := p = 4 || p = 5
 
+/-- The configured (persistent) peers of a case: 4 and 5 when they are listed in the session token. -/
+def configured (ss : List (Nat × SessState)) : List (Nat × Nat × Bool) :=
+  (ss.filter fun e => persistent e.1).map fun e => (e.1, e.1, true)
+
 def mkSession (p : Nat) (st : SessState) : Session :=
   { id := p, host := p, routable := true, persistent := persistent p, state := st, queue := [], subscribed := false }
 
-def initState (ss : List (Nat × SessState)) : State :=
+def initState (ss : List (Nat × SessState)) (known : List Nat) : State :=
   { self := 9, now := NOW, fetchConcurrency := 1,
     sessions := fun k => (ss.find? (·.1 == k)).map fun (p, st) => mkSession p st,
     fetching := fun _ => none,
-    buckets := fun _ => none }
+    buckets := fun _ => none,
+    gossip := fun _ => none, gossipMax := none, lastOnline := none,
+    known := fun k => known.contains k }
+
+/-- `<seeded>[/<known>]` -/
+def parseKnown (s : String) : Option (List Nat) :=
+  match splitOn s '/' with
+  | [_] => some []
+  | [_, k] => nats? k
+  | _ => none
 
 def ts? (s : String) : Option Nat :=
   match nat? s with
@@ -129,10 +157,11 @@ def parseMsg (s : String) : Option Msg :=
   | ["o"] => some .info
   | _ => none
 
-def parseOp (s : String) : Option Op :=
+def parseOp (cfg : List (Nat × Nat × Bool)) (s : String) : Option Op :=
   match s.toList with
+  | ['R'] => some (.restart cfg)
   | 'x' :: p => do let p ← peer? (String.ofList p); some (.disconnect p)
-  | 'c' :: p => do let p ← peer? (String.ofList p); some (.connectIn p p true (persistent p))
+  | 'c' :: p => do let p ← peer? (String.ofList p); some (.connectIn p p true (cfg.any (·.1 == p)))
   | 'r' :: rest =>
     match splitOn (String.ofList rest) ':' with
     | [p, m] => do let p ← peer? p; let m ← parseMsg m; some (.recv p m)
@@ -157,17 +186,58 @@ def showStep (σ : State) (op : Op) (o : Outcome) : String :=
 def runOps (σ : State) : List Op → List String
   | [] => []
   | op :: ops =>
-    match step Code.current defaultEnv σ op with
+    match step serviceCode defaultEnv σ op with
     | (.panic s, _) => [showStep σ op (.panic s)]
     | (o, σ') => showStep σ op o :: runOps σ' ops
 
-def runB (sessions : String) (ops : List String) : String :=
-  match parseSessions sessions, ops.mapM parseOp with
-  | some ss, some ops =>
-    let σ := initState ss
-    joinWith "" (runOps σ ops)
+def runB (sessions seeded : String) (ops : List String) : String :=
+  match parseSessions sessions, parseKnown seeded with
+  | some ss, some known =>
+    match ops.mapM (parseOp (configured ss)) with
+    | some ops => joinWith "" (runOps (initState ss known) ops)
+    | none => "bad-op"
   | _, _ => "bad-op"
 end B
+
+/-! ### (d) -/
+section D
+open HeartwoodModel.Streams
+
+def parseOpD (s : String) : Option Op :=
+  match s.toList with
+  | ['F'] => some .fetch
+  | k :: rest =>
+    match nat? (String.ofList rest) with
+    | some n =>
+      if n < 2 ^ 62 && toString n == String.ofList rest then
+        match k with
+        | 'O' => some (.recvOpen n) | 'C' => some (.recvClose n) | 'E' => some (.recvEof n)
+        | 'G' => some (.recvGit n) | 'W' => some (.workerResult n)
+        | _ => none
+      else none
+    | none => none
+  | _ => none
+
+def showEv : Ev → String
+  | .task true id => s!"Tr{id}"
+  | .task false id => s!"Ti{id}"
+  | .sendOpen id => s!"So{id}"
+  | .sendClose id => s!"Sc{id}"
+
+def runOpsD (σ : Streams.State) : List (String × Op) → List String
+  | [] => []
+  | (label, op) :: ops =>
+    match Streams.step streamsCode σ op with
+    | .error _ => [label ++ ":P"]
+    | .ok (σ', evs) =>
+      (label ++ ":" ++ (if evs.isEmpty then "-" else joinWith "," (evs.map showEv))) :: runOpsD σ' ops
+
+def runD (link : String) (ops : List String) : String :=
+  let l : Option Link := if link == "o" then some .outbound else if link == "i" then some .inbound else none
+  match l, ops.mapM (fun s => (parseOpD s).map fun op => (s, op)) with
+  | some l, some ops => joinWith " " (runOpsD (Streams.init l) ops)
+  | _, _ => "bad-op"
+end D
 
 def run (args : List String) : String :=
   match args with
@@ -175,7 +245,8 @@ def run (args : List String) : String :=
     match hexBytes? stream, parseSet onions with
     | some s, some o => runA (toBytes s) o
     | _, _ => "bad-op"
-  | "b" :: sessions :: _seeded :: ops => runB sessions ops
+  | "b" :: sessions :: seeded :: ops => runB sessions seeded ops
+  | "d" :: link :: ops => runD link ops
   | ["c", stream, chunk, graph] => HeartwoodModel.Driver.C12.run ["h", stream, chunk, graph]
   | _ => "bad-op"
 
